@@ -1,10 +1,11 @@
 import QeepProps.C15x
 import QeepProps.C01w
+import QeepProps.C08z
 /-!
 # C15 — what `BackPropagate` stores on an activation's input (end to end)
 
 `sigmoid_backprop`: take ANY heap the public API can build (`Reach`), any tracked, unspent tensor `x` in it — a leaf or the
-output of earlier tracked operations — that carries no gradient yet; run `Sigmoid.Forward(x)` and then
+output of earlier tracked operations (being unspent it carries no gradient: `reach_clean_nograd`); run `Sigmoid.Forward(x)` and then
 `tensor.BackPropagate` on the result. If the back-propagation returns without error, `x.Gradient()` is exactly
 `s(x)·(1 − s(x))` element by element (the upstream weighting is the all-ones seed), which is the Mathlib derivative of the
 logistic function (`C15x.d_sig`). The proof runs the real walk: `C01w.grad_root` / `grad_single` / `grad_two` (every
@@ -225,8 +226,7 @@ macro "edge_ne" c:term : tactic =>
   `(tactic| exact no_edge_to _ _ _ _ $c (by simp <;> omega))
 
 /-- **Sigmoid, end to end** (see the header) -/
-theorem sigmoid_backprop (bm : BMode) (H : Heap ℝ) (x : Nat) (hR : Reach bm H) (hwf : (H.val x).WF) (l : Live H x)
-    (hgx : H.grad x = none) :
+theorem sigmoid_backprop (bm : BMode) (H : Heap ℝ) (x : Nat) (hR : Reach bm H) (hwf : (H.val x).WF) (l : Live H x) :
     ∃ r H', actForward Activation.sigmoid [some x] H = .ok (r, H') ∧ H'.val r = (H.val x).map sig ∧
       ((backprop bm H' r).status = .ok () →
         (backprop bm H' r).heap.grad x
@@ -235,6 +235,7 @@ theorem sigmoid_backprop (bm : BMode) (H : Heap ℝ) (x : Nat) (hR : Reach bm H)
     sigmoid_full bm H x hR hwf l
   refine ⟨r, H', hrun, vr, ?_⟩
   intro hok
+  have hgx : H.grad x = none := reach_clean_nograd hR x l.2.2
   subst er
   have hdag := reach_dag hR'
   have hxN : x < H.size := l.1
@@ -441,14 +442,14 @@ theorem relu_full (bm : BMode) (H : Heap ℝ) (x : Nat) (hR : Reach bm H) (hwf :
 
 /-- **Relu, end to end**: after `Relu.Forward(x)` and a successful `BackPropagate` of the result, `x.Gradient()` is
     `relu'(x)` element by element — 1 above the tie band, 0 below, ½ inside (`C15.reluD_cases`) — whatever `x` was computed from -/
-theorem relu_backprop (bm : BMode) (H : Heap ℝ) (x : Nat) (hR : Reach bm H) (hwf : (H.val x).WF) (l : Live H x)
-    (hgx : H.grad x = none) :
+theorem relu_backprop (bm : BMode) (H : Heap ℝ) (x : Nat) (hR : Reach bm H) (hwf : (H.val x).WF) (l : Live H x) :
     ∃ r H', actForward Activation.relu [some x] H = .ok (r, H') ∧ H'.val r = (H.val x).map (fun a => max 0 a) ∧
       ((backprop bm H' r).status = .ok () →
         (backprop bm H' r).heap.grad x = some ⟨(H.val x).dims, (H.val x).data.map C15.reluD⟩) := by
   obtain ⟨r, H', hrun, hext, hR', er, vx, vz, vr, c0, c1⟩ := relu_full bm H x hR hwf l
   refine ⟨r, H', hrun, vr, ?_⟩
   intro hok
+  have hgx : H.grad x = none := reach_clean_nograd hR x l.2.2
   subst er
   have hdag := reach_dag hR'
   have hxN : x < H.size := l.1
@@ -530,8 +531,7 @@ theorem relu_backprop (bm : BMode) (H : Heap ℝ) (x : Nat) (hR : Reach bm H) (h
 /-! ## Tanh -/
 
 /-- **Tanh, end to end**: `x.Gradient()` after `Tanh.Forward(x)` and a successful `BackPropagate` is `cosh(x)⁻² = 1 − tanh²(x)` -/
-theorem tanh_backprop (bm : BMode) (H : Heap ℝ) (x : Nat) (hR : Reach bm H) (hwf : (H.val x).WF) (l : Live H x)
-    (hgx : H.grad x = none) :
+theorem tanh_backprop (bm : BMode) (H : Heap ℝ) (x : Nat) (hR : Reach bm H) (hwf : (H.val x).WF) (l : Live H x) :
     ∃ r H', actForward Activation.tanh [some x] H = .ok (r, H') ∧ H'.val r = (H.val x).map Real.tanh ∧
       ((backprop bm H' r).status = .ok () →
         (backprop bm H' r).heap.grad x = some ⟨(H.val x).dims, (H.val x).data.map (fun a => (Real.cosh a) ^ (-2 : ℝ))⟩) := by
@@ -546,6 +546,7 @@ theorem tanh_backprop (bm : BMode) (H : Heap ℝ) (x : Nat) (hR : Reach bm H) (h
   have vr' : H'.val r = (H.val x).map Real.tanh := by rw [hval]; rfl
   refine ⟨r, H', hrun, vr', ?_⟩
   intro hok
+  have hgx : H.grad x = none := reach_clean_nograd hR x l.2.2
   subst ir
   have hdag := reach_dag hR'
   have hxN : x < H.size := l.1
@@ -711,8 +712,7 @@ theorem leaky_full (bm : BMode) (m : ℝ) (H : Heap ℝ) (x : Nat) (hR : Reach b
 
 /-- **LeakyRelu, end to end**: `x.Gradient()` after `LeakyRelu.Forward(x)` and a successful `BackPropagate` is `leakyD m x`
     element by element: 1 above the tie band, `m` below, `(1+m)/2` inside (`C15x.leakyD_cases`) -/
-theorem leaky_backprop (bm : BMode) (m : ℝ) (H : Heap ℝ) (x : Nat) (hR : Reach bm H) (hwf : (H.val x).WF) (l : Live H x)
-    (hgx : H.grad x = none) :
+theorem leaky_backprop (bm : BMode) (m : ℝ) (H : Heap ℝ) (x : Nat) (hR : Reach bm H) (hwf : (H.val x).WF) (l : Live H x) :
     ∃ r H', actForward (Activation.leaky m) [some x] H = .ok (r, H') ∧
       H'.val r = (H.val x).map (fun a => max 0 a + m * min 0 a) ∧
       ((backprop bm H' r).status = .ok () →
@@ -721,6 +721,7 @@ theorem leaky_backprop (bm : BMode) (m : ℝ) (H : Heap ℝ) (x : Nat) (hR : Rea
     leaky_full bm m H x hR hwf l
   refine ⟨r, H', hrun, vr, ?_⟩
   intro hok
+  have hgx : H.grad x = none := reach_clean_nograd hR x l.2.2
   subst er
   have hdag := reach_dag hR'
   have hxN : x < H.size := l.1
